@@ -525,6 +525,60 @@ pub struct Explore {
     pub found: Mutex<Vec<(Vec<Act>, String, String)>>,
 }
 
+fn is_append(a: &Act) -> bool {
+    match a {
+        Act::Unit { pos, .. } | Act::Construct { pos, .. } | Act::Attach { pos, .. } => pos.is_none(),
+        Act::NewDangling => true,
+    }
+}
+
+/// second pass: one level deeper than `dfs`, restricted to the append API (no positional
+/// inserts), so that longer construction orders (e.g. a dangling sequence created before the
+/// sequence that later encloses it, then branched to) are covered in the quick tier too
+pub fn dfs_append(t: &RefTree, hist: &mut Vec<Act>, depth: usize, max_nest: usize, ex: &Explore, visit: &(dyn Fn(&[Act], &RefTree) -> Option<(String, String)> + Sync)) {
+    if hist.len() == depth {
+        ex.states.fetch_add(1, Ordering::Relaxed);
+        if let Some((sig, d)) = visit(hist, t) {
+            let mut f = ex.found.lock().unwrap();
+            if f.len() < 2000 {
+                f.push((hist.clone(), sig, d));
+            }
+        }
+        return;
+    }
+    for a in t.actions(max_nest) {
+        if !is_append(&a) {
+            continue;
+        }
+        let mut t2 = t.clone();
+        t2.apply(&a);
+        hist.push(a);
+        ex.transitions.fetch_add(1, Ordering::Relaxed);
+        dfs_append(&t2, hist, depth, max_nest, ex, visit);
+        hist.pop();
+    }
+}
+
+pub fn explore_append(depth: usize, max_nest: usize, threads: usize, ex: &Explore, visit: &(dyn Fn(&[Act], &RefTree) -> Option<(String, String)> + Sync)) {
+    let root = RefTree::new();
+    let mut work: Vec<Vec<Act>> = vec![];
+    for a in root.actions(max_nest).into_iter().filter(is_append) {
+        let mut t = root.clone();
+        t.apply(&a);
+        for b in t.actions(max_nest).into_iter().filter(is_append) {
+            work.push(vec![a, b]);
+        }
+    }
+    pmap(&work, threads, None, |h| {
+        let mut t = root.clone();
+        for a in h {
+            t.apply(a);
+        }
+        let mut hist = h.clone();
+        dfs_append(&t, &mut hist, depth, max_nest, ex, visit);
+    });
+}
+
 pub fn dfs(t: &RefTree, hist: &mut Vec<Act>, depth: usize, max_nest: usize, ex: &Explore, visit: &(dyn Fn(&[Act], &RefTree) -> Option<(String, String)> + Sync)) {
     ex.states.fetch_add(1, Ordering::Relaxed);
     if let Some((sig, d)) = visit(hist, t) {
@@ -669,11 +723,16 @@ pub fn run(args: &Args) -> i32 {
     }
     let (depth, nest) = bounds(args);
     let distinct: Mutex<HashSet<u64>> = Mutex::new(HashSet::new());
-    let ex = explore_all(depth, nest, args.threads, &|h, t| {
+    let visit = |h: &[Act], t: &RefTree| {
         let key = wmodel::fnv(format!("{:?}", t.flatten()).as_bytes());
         distinct.lock().unwrap().insert(key);
         check_history(h)
-    });
+    };
+    let ex = explore_all(depth, nest, args.threads, &visit);
+    // one level deeper with the append API only (states of exactly that length)
+    let append_depth = depth + 1;
+    explore_append(append_depth, nest.max(2), args.threads, &ex, &visit);
+    ev.extra.insert("append_only_pass".into(), json!({"history_length": append_depth}));
     ev.states = ex.states.load(Ordering::Relaxed);
     ev.transitions = ex.transitions.load(Ordering::Relaxed);
     ev.evaluations = ev.states;
@@ -688,8 +747,8 @@ pub fn run(args: &Args) -> i32 {
     ev.rule = format!(
         "every history of at most {} builder actions (append/insert-at-every-instruction-position of 5 stack-neutral units + br/br_if to every enclosing sequence; block/loop/if_else through the \
          closure API with empty or filled closures; dangling sequence created and attached later at any position as block or loop), nesting <= {}, replayed on the real FunctionBuilder and on a \
-         reference tree; the oracle runs in every state (every prefix). states = histories; non-trivial = distinct reference flattenings reached",
-        depth, nest
+         reference tree; the oracle runs in every state (every prefix); plus every history of exactly {} actions that uses the append API only. states = histories; non-trivial = distinct reference flattenings reached",
+        depth, nest, append_depth
     );
     ev.bounds = json!({"actions": depth, "nesting": nest});
     ev.assumptions = vec!["the reference tree and its flattening (written from the wasm spec) define the expected body; tolerated: an empty else arm emitted without `else`".into()];
